@@ -191,7 +191,9 @@ impl Quantity {
 
         // Heuristic 3
         let removed_exponent = |u: &UnitFactor| {
-            let base_unit = u.unit_id.base_unit_and_factor().0;
+            // The base unit representation needs to be canonicalized: a unit like
+            // `m·m·m` has to be treated as `m³` here.
+            let base_unit = u.unit_id.base_unit_and_factor().0.canonicalized();
             if let Some(first_factor) = base_unit.into_iter().next() {
                 first_factor.exponent
             } else {
